@@ -3,7 +3,7 @@ proof: coq/Props/C04.v over coq/Client/Stream.v (+StreamProofs.v);
 tie: a real llrp.Client on net.Pipe against a scripted peer (harness/llrp/c04_test.go) vs the
 extracted read-loop model (oracle/c04); the property predicate is also evaluated directly on what
 the instrumented handlers / callers / logger observed."""
-import hashlib, json, os, random, struct
+import hashlib, json, os, random, struct, threading
 import vlib
 
 PID = "C04"
@@ -15,7 +15,20 @@ REQ_T = 2                 # requests are GetReaderConfig
 
 
 # ------------------------------------------------------------------ shared generators
+_payload_cache = {}
+
+
 def payload(seed, n):
+    if n >= 4096:                      # the big ones are asked for again by every pass over a scenario
+        if (seed, n) not in _payload_cache:
+            if len(_payload_cache) > 48:
+                _payload_cache.clear()
+            _payload_cache[(seed, n)] = _payload(seed, n)
+        return _payload_cache[(seed, n)]
+    return _payload(seed, n)
+
+
+def _payload(seed, n):
     out = bytearray()
     j = 0
     while len(out) < n:
@@ -68,10 +81,14 @@ class Builder:
         self.ncallers = 0
         self.pseed = 0
 
-    def send(self):
+    def send(self, via="", in_typ=0):
+        """a caller sends a request and awaits the reply through the API `via` (VIAS)"""
         j = self.ncallers
         self.ncallers += 1
-        self.sc["steps"].append(dict(op="send", caller=j, typ=REQ_T))
+        st = dict(op="send", caller=j, typ=REQ_T)
+        if via:
+            st.update(via=via, in_typ=in_typ)
+        self.sc["steps"].append(st)
         return j
 
     def chunk(self, frames, seg="whole", segseed=1, segmax=64, segcuts=None):
@@ -88,6 +105,10 @@ class Builder:
 
 
 CFGS = [([], False), ([T_H], False), ([], True), ([T_H, T_H2], True)]
+
+# how an awaiting caller receives its reply: c.send + Message.data (what SendMessage is made of; shows the whole
+# reply header), c.send + UnmarshalTo, the public SendMessage, the public SendFor (expects a reply type)
+VIAS = ["", "unmarshal", "message", "for"]
 
 
 def matrix_scenarios(thorough):
@@ -111,7 +132,8 @@ def matrix_scenarios(thorough):
                 pos += 24
                 frames = []
                 for typ, n, k, panic, aw in part:
-                    j = b.send() if aw else None
+                    via = VIAS[(pos + len(frames)) % len(VIAS)]
+                    j = b.send(via, typ) if aw else None
                     frames.append(frame(typ, n, k, panic, reply_to=j, mid=0xFFFF0000 + len(frames)))
                 b.chunk(frames, seg, segseed=pos, segmax=13)
             out.append(b.sc)
@@ -139,6 +161,36 @@ def limit_scenarios(thorough):
         b.chunk([frame(T_H, LIMIT, 7, False, reply_to=j), frame(T_U, LIMIT + 1, 0, True, mid=5),
                  frame(T_U, 1, 1, False, mid=6)], "byte")
         out.append(b.sc)
+    return out
+
+
+def oversize_awaited_scenarios(rnd, thorough):
+    """AWAITED replies around and beyond the buffering limit, received through every API an awaiting caller has
+    (VIAS), on every handler configuration (nobody / type handler / default handler; the handler reading none, part,
+    all of it or using Message.data itself): the caller must be handed exactly the bytes the peer sent or an error —
+    never a success with other bytes — and the stream must stay aligned: each big reply is followed by a small awaited
+    reply (same API) that must arrive intact, and a sentinel frame."""
+    out = []
+    sizes = [LIMIT + 1, LIMIT + 2 + rnd.randrange(4096), 2 * LIMIT + rnd.randrange(1000)]
+    if thorough:
+        sizes += [LIMIT + 1 + rnd.randrange(LIMIT) for _ in range(3)] + [4 * LIMIT + 3]
+    cfgs = [("nobody", [], False), ("type-handler", [T_H], False), ("default-handler", [], True)]
+    for ci, (cname, hs, df) in enumerate(cfgs):
+        for si, n in enumerate(sizes if thorough else sizes[ci:] + sizes[:ci]):
+            if not thorough and si >= 2:
+                break
+            b = Builder("oversize-awaited/%s/%d" % (cname, n), hs, df)
+            b.sc["step_ms"] = 15000
+            for vi, via in enumerate(VIAS):
+                big = n if vi % 2 == 0 or thorough else LIMIT + 1 + (n + vi) % 977
+                j = b.send(via, T_H)
+                j2 = b.send(via, T_U)
+                hb = [dict(k=0), dict(k=big // 2), dict(k=big), dict(mode="data")][(vi + si) % 4]
+                frames = [frame(T_H, big, reply_to=j, **hb),
+                          frame(T_U, 9 + vi, 3, reply_to=j2),
+                          frame(T_U, 2, 1, mid=0xFFFC0000 + vi)]
+                b.chunk(frames, ["whole", "rand", "fixed", "rand"][vi], segseed=n + vi, segmax=[0, 70000, 1460, 9000][vi])
+            out.append(b.sc)
     return out
 
 
@@ -317,7 +369,7 @@ def random_scenarios(rnd, count):
         nk = 0
         for _ in range(rnd.randint(1, 4)):
             for _ in range(rnd.randint(0, 3)):
-                outstanding.append(b.send())
+                outstanding.append(b.send(rnd.choice(["", "", "unmarshal", "message"])))
             frames = []
             for _ in range(rnd.randint(1, 8)):
                 typ = rnd.choice([T_H, T_H2, T_U, 62, 0, 1023, 100, 12, 900, rnd.randrange(1024)])
@@ -406,8 +458,9 @@ def parse_oracle(line):
         elif t.startswith("REST="):
             rest = t[5:]
         else:
-            h, rep, hd, disc, alloc = t.split("|")
-            recs.append(dict(hdr=[int(x) for x in h.split(",")], reply=rep, handler=hd, disc=disc == "1", alloc=int(alloc)))
+            h, rep, hd, disc, alloc, handed = t.split("|")
+            recs.append(dict(hdr=[int(x) for x in h.split(",")], reply=rep, handler=hd, disc=disc == "1", alloc=int(alloc),
+                             handed=handed))
     return recs, end, rest
 
 
@@ -468,12 +521,21 @@ def compare(sc, go, model):
                 diffs.append("frame %d: model delivers a reply for id %d, no such caller in go" % (i, m["hdr"][3]))
             elif m["reply"].startswith("B:"):
                 _, ln, h = m["reply"].split(":")
-                if not (c["returned"] and c["err"] == "nil" and c["hdr"] == m["hdr"] and not c["payload_nil"]
+                if not (c["returned"] and c["err"] == "nil" and hdr_matches(c, m["hdr"]) and not c["payload_nil"]
                         and not c["data_err"] and c["dlen"] == int(ln) and c["md5"] == h):
                     diffs.append("frame %d: buffered reply: go caller %s model %s" % (i, c, m["reply"]))
             elif m["reply"] == "H":
-                if not (c["returned"] and c["err"] == "nil" and c["hdr"] == m["hdr"] and c["payload_nil"]):
+                # the Message on the reply channel is visible only to callers that use c.send themselves
+                if sees_message(c) and not (c["returned"] and c["err"] == "nil" and c["hdr"] == m["hdr"] and c["payload_nil"]):
                     diffs.append("frame %d: header-only reply: go caller %s" % (i, c))
+            # what the caller is handed (Message.data on that delivery; model: caller_handed, size check first)
+            if m["reply"] in ("H",) or m["reply"].startswith("B:"):
+                if m["handed"] == "E" and c is not None and handed_success(c):
+                    diffs.append("frame %d: model hands the caller an error, go caller got a success: %s" % (i, c))
+                elif m["handed"].startswith("D:") and c is not None:
+                    _, t, ln, h = m["handed"].split(":")
+                    if not (handed_success(c) and c["hdr"][1] == int(t) and c["dlen"] == int(ln) and c["md5"] == h):
+                        diffs.append("frame %d: model hands the caller %s, go caller %s" % (i, m["handed"], c))
             elif m["reply"] == "T":
                 if not (c["err"] in ("closed", "ctx")):
                     diffs.append("frame %d: truncated reply: go caller %s" % (i, c))
@@ -491,6 +553,20 @@ def compare(sc, go, model):
     if go["early_exit"]:
         diffs.append("Connect returned before the peer closed")
     return diffs
+
+
+def sees_message(c):
+    """does this caller's API show the Message itself (whole header, payload reader)?"""
+    return (c.get("via") or "") in ("", "unmarshal")
+
+
+def hdr_matches(c, want):
+    return c["hdr"][1] == want[1] if c.get("typ_only") else c["hdr"] == want
+
+
+def handed_success(c):
+    """the call the caller made reported success (for c.send + data()/UnmarshalTo: both steps)"""
+    return bool(c.get("returned")) and c["err"] == "nil" and not c["data_err"]
 
 
 def tail_payload(sc, i):
@@ -578,13 +654,22 @@ def property_check(sc, go):
             if c is None or not c["returned"]:
                 fails.append(("caller-not-answered:" + path, "frame %d: the caller awaiting id %d was not released: %s" % (i, f["id"], c)))
             elif f["plen"] <= LIMIT:
-                if not (c["err"] == "nil" and c["hdr"] == want and not c["data_err"] and c["dlen"] == len(pl) and c["md5"] == md5(pl)):
-                    fails.append(("caller-wrong-reply:" + path, "frame %d: awaiting caller must get header %s and the %d payload bytes "
-                                                                "(md5 %s); got %s" % (i, want, len(pl), md5(pl), c)))
+                if not (handed_success(c) and hdr_matches(c, want) and c["dlen"] == len(pl) and c["md5"] == md5(pl)):
+                    fails.append(("caller-wrong-reply:" + path, "frame %d: awaiting caller (API: %s) must get header %s and the %d payload bytes "
+                                                                "(md5 %s); got %s" % (i, c.get("via") or "send+data", want, len(pl), md5(pl), c)))
             else:
-                # too large to buffer: C10 decides whether this must be an error; here: never wrong bytes
-                if c["err"] == "nil" and (c["hdr"] != want or c["dlen"] not in (0, len(pl)) or (c["dlen"] == len(pl) and c["md5"] != md5(pl))):
-                    fails.append(("caller-wrong-reply:" + path, "frame %d: oversize reply delivered with wrong header/bytes: %s" % (i, c)))
+                # too large to buffer.  The caller entitled to it must be handed exactly the bytes the reader sent, or be
+                # told (an error) that it cannot have them; a success with other bytes — none, fewer, different — is not
+                # a delivery "with exactly the payload bytes the reader sent".  (That it must be an ERROR rather than the
+                # bytes is C10's clause.)
+                if handed_success(c) and not (hdr_matches(c, want) and c["dlen"] == len(pl) and c["md5"] == md5(pl)):
+                    fails.append(("caller-handed-wrong-bytes:" + path,
+                                  "frame %d: the reader answered request id %d with %d payload bytes (md5 %s; beyond the buffering limit %d); "
+                                  "the awaiting caller (API: %s) was handed a SUCCESS with %d bytes (md5 %s), reply type %d — neither the bytes "
+                                  "the reader sent nor an error" % (i, f["id"], len(pl), md5(pl), LIMIT, c.get("via") or "send+data",
+                                                                    c["dlen"], c["md5"], c["hdr"][1])))
+                elif sees_message(c) and c["err"] == "nil" and c["hdr"] != want:
+                    fails.append(("caller-wrong-reply:" + path, "frame %d: oversize reply delivered with a wrong header: %s, sent %s" % (i, c, want)))
         prev_path = path
     else:
         # all scripted frames were parsed in place; nothing else may be parsed except a header inside the tail
@@ -669,6 +754,7 @@ def run(tier, seed, replay=None):
             if n.startswith("C04_") and n.endswith(".json"):
                 scs += json.load(open(os.path.join(vlib.ROOT, "corpus", n))).get("scenarios", [])
         scs += tail_scenarios() + consume_scenarios(random.Random(seed + 5), thorough) + matrix_scenarios(thorough) + limit_scenarios(thorough)
+        scs += oversize_awaited_scenarios(random.Random(seed + 23), thorough)
         scs += random_scenarios(rnd, 1500 if thorough else 150)
 
     # which types does the code exempt from the awaiting lookup?  (none before the C03/F2 fix)
@@ -701,8 +787,13 @@ def run(tier, seed, replay=None):
     res.notes.append("first message offered to the default handler (probed): %s" % FIRST_DEFAULT[0])
     if not replay and (thorough or not CLOSE_PARKS[0]):
         scs += closeresp_scenarios()          # costs a watchdog period on a tree where the loop parks
+    # the extracted model runs on the same scripts while the implementation does
+    obox = {}
+    oth = threading.Thread(target=lambda: obox.update(r=run_oracle([oracle_request(sc) for sc in scs])))
+    oth.start()
     answers, crashed, unrun = run_go(exe, scs, 2400 if thorough else 600)
-    orc, olines = run_oracle([oracle_request(sc) for sc in scs])
+    oth.join()
+    orc, olines = obox.get("r", (1, []))
     if orc != 0 or len(olines) != len(scs):
         res.violation("oracle-run", "oracle failed (rc=%s, %d/%d answers): %s" % (orc, len(olines), len(scs), "\n".join(olines)[-500:]),
                       dict(kind="oracle"), False)
